@@ -34,6 +34,9 @@ TYPES = {
                                 {"n": "Go", "fs": [BYTES], "ls": None, "tag": 7}]},
     "Rec5": {"ps": [], "cs": [{"n": "Rec5", "fs": [INT, BOOL], "ls": ["a", "b"], "tag": 5}], "type_tag": True},
     "Named": {"ps": [], "cs": [{"n": "Named", "fs": [STRING, INT], "ls": ["label", "weight"]}]},
+    # ONE explicitly written constructor carrying its own tag (not the record shorthand with the tag on the type)
+    "Solo": {"ps": [], "cs": [{"n": "Mk", "fs": [INT], "ls": ["amount"], "tag": 3}]},
+    "Solo2": {"ps": [], "cs": [{"n": "Mk2", "fs": [INT, BYTES], "ls": None, "tag": 9}]},
     "RecL": {"ps": [], "cs": [{"n": "RecL", "fs": [INT, BYTES, TOption(INT)], "ls": ["a", "b", "c"]}], "type_list": True},
     "Inner": {"ps": ["b"], "cs": [{"n": "Inner", "fs": [TList(TVar("b"))], "ls": ["inner"]}]},
     "Wrap": {"ps": ["a"], "cs": [{"n": "Wrap", "fs": [TAdt("Inner", TVar("a")), INT], "ls": ["w", "n"]}]},
